@@ -82,10 +82,55 @@ def systems(draw):
         mu = sum(x) / m
         x = [v - mu for v in x]
     return {"n": n, "m": m, "z": zraw, "logcond": logc, "x": x, "xkind": xkind,
-            "ridge": draw(st.sampled_from([0.0, 1e-10, 1e-6, 1e-2]))}
+            "ridge": draw(st.sampled_from([0.0, 1e-10, 1e-6, 1e-2])),
+            # structure: "mirror" = system invariant under swapping two halves of the unknowns (exact ties: several
+            # parameters leave the passive set in the same step); "deconv" = 1D blurred-source system, larger and
+            # ill-conditioned (many add/drop swaps of the active-set iteration)
+            "structure": draw(st.sampled_from(["plain", "plain", "mirror", "mirror-int", "mirror-int", "mirror-int", "mirror-int", "deconv"])),
+            "pairs": draw(st.integers(1, 3)), "axis": draw(st.integers(0, 2)), "half": draw(st.integers(3, 5)),
+            "ints": draw(st.lists(st.integers(-3, 3), min_size=5 * 8 + 5, max_size=5 * 8 + 5)),
+            "big_n": draw(st.integers(12, 40)), "width": draw(st.floats(0.6, 3.0)), "reg": draw(st.sampled_from([1e-6, 1e-4, 1e-2]))}
 
 
 def _system(case):
+    st_ = case.get("structure", "plain")
+    if st_ == "deconv":
+        n = int(case["big_n"])
+        idx = np.arange(n)
+        blur = np.exp(-0.5 * ((idx[:, None] - idx[None, :]) / float(case["width"])) ** 2)
+        blur /= blur.sum(axis=1, keepdims=True)
+        xs = np.resize(np.asarray(case["x"], dtype=float), n)
+        lap = 2 * np.eye(n) - np.eye(n, k=1) - np.eye(n, k=-1)
+        a = blur.T @ blur + float(case["reg"]) * lap + 1e-10 * np.eye(n)
+        a = (a + a.T) / 2.0
+        b = blur.T @ xs
+        return a, b, float((np.abs(blur).T @ np.abs(xs)).max())
+    if st_ == "mirror-int":
+        # small-integer design matrix with mirrored pairs of unknowns and mirrored data: A and b are exact and
+        # exactly invariant under swapping each pair, so paired parameters cross zero in the very same step
+        m_, k_, h_ = int(case["pairs"]), int(case["axis"]), int(case["half"])
+        v = np.asarray(case["ints"], dtype=float)
+        A_ = v[:h_ * m_].reshape(h_, m_); B_ = v[15:15 + h_ * m_].reshape(h_, m_); S_ = v[30:30 + h_ * k_].reshape(h_, k_) if k_ else np.zeros((h_, 0))
+        z = np.zeros((2 * h_, 2 * m_ + k_))
+        z[:h_, :m_], z[h_:, :m_] = A_, B_
+        z[:h_, m_:2 * m_], z[h_:, m_:2 * m_] = B_, A_
+        if k_:
+            z[:h_, 2 * m_:], z[h_:, 2 * m_:] = S_, S_
+        xh = v[40:40 + h_]
+        x = np.concatenate([xh, xh])
+        return z.T @ z + np.eye(2 * m_ + k_), z.T @ x, float((np.abs(z).T @ np.abs(x)).max()) + 1.0
+    if st_ == "mirror":
+        a0, b0, nat = _system(dict(case, structure="plain"))
+        k = len(b0)
+        perm = np.arange(k)[::-1]
+        q = 0.5 * a0[perm][:, perm] * 0.6
+        q = (q + q.T) / 2.0
+        a = np.block([[a0 + np.abs(q).sum() * 0 * np.eye(k), q], [q, a0]])
+        # make it safely positive definite without breaking the exact mirror symmetry
+        shift = max(0.0, 1e-6 - float(np.linalg.eigvalsh(a).min()))
+        a = a + (shift * 1.5) * np.eye(2 * k)
+        b = np.concatenate([b0, b0])
+        return a, b, nat
     n, m = case["n"], case["m"]
     z = np.asarray(case["z"], dtype=float).reshape(m, n) + 0.1 * np.eye(m, n)
     u, _ = np.linalg.qr(z)
@@ -109,6 +154,7 @@ def body_solver(case, ctx):
         ctx.label("rhs<1e-6:skipped"); ctx.tie(); return
     unc = np.linalg.solve(a, b)
     ctx.nt(bool((unc < 0).any()))
+    ctx.label("structure:%s" % case.get("structure", "plain"), "n:%s" % ("<=12" if len(b) <= 12 else "13-24" if len(b) <= 24 else ">24"))
     ctx.label("x:%s" % case["xkind"], "cond:1e%d" % int(round(np.log10(cond))),
               "unconstrained:has-negative" if (unc < 0).any() else "unconstrained:all-positive",
               "unconstrained:all-negative" if (unc <= 0).all() else None)
@@ -216,6 +262,6 @@ def body_inversion(case, ctx):
 
 
 SUBCHECKS = [
-    SubCheck("solver", body_solver, strategy=systems(), examples={"quick": 3000, "thorough": 40000}, shards={"quick": 8, "thorough": 16}),
+    SubCheck("solver", body_solver, strategy=systems(), examples={"quick": 8000, "thorough": 80000}, shards={"quick": 16, "thorough": 16}),
     SubCheck("inversion", body_inversion, strategy=inversion_case(), examples={"quick": 800, "thorough": 8000}, shards={"quick": 8, "thorough": 16}),
 ]
